@@ -148,7 +148,8 @@ PROPS["C13"] = {
     "level_text": "Generated-history search; the oracle is a structural invariant over the delivery log.",
     "level_note": "middleware functions are pure loggers; no claim about Context.Sender() during lifecycle messages",
     "assumptions": LIFE_ASSUME,
-    "legs": [rapid("life", "c13", "TestMiddleware", 3000, 50000, shards=(2, 12))],
+    "legs": [rapid("life", "c13", "TestMiddleware", 3000, 50000, shards=(2, 12)),
+             rapid("values", "c13", "TestMessageValues", 1500, 20000, shards=(1, 6))],
 }
 
 WIRE_ASSUME = [
